@@ -153,7 +153,7 @@ theorem stepT'_cases (w : WorldT) (op : OpT) :
 /-! ## The per-message clauses transfer verbatim -/
 
 /-- a message of the aspect model is accepted by the layered model exactly when `PriceRules.step` accepts it on the
-world in which every whitelist is what its `Config` query answers NOW — so `C07_floor_partial`, `C07_floor_denom`,
+world in which every whitelist is what its `Config` query answers NOW — so `C07_floor_partial`, `C07_floor_denom_partial`,
 `C07_only_lower_after_start`, `C07_public_price_step`, `C07_discount_rules_update/_remove`,
 `C07_discount_cooldown_sharp`, `C07_query_honest` … all hold of `stepT w (.base op)` with `sync w` for `w` -/
 theorem C07_tiered_step (w w' : WorldT) (op : Op) (hok : stepT w (.base op) = .ok w') :
@@ -178,7 +178,7 @@ theorem C07_tiered_floor_partial (w w' : WorldT) (op : Op) (c : Coin)
     (hok : stepT w (.base op) = .ok w') (hset : setsPrice (sync w) op = some c) :
     w.base.fac.minPrice.amount ≤ c.amount ∧ (DenomInv (sync w) → c.denom = w.base.fac.minPrice.denom) := by
   obtain ⟨hs, _⟩ := C07_tiered_step w w' op hok
-  exact ⟨C07_floor_partial (sync w) _ op c hs hset, fun hinv => C07_floor_denom (sync w) _ op c hinv hs hset⟩
+  exact ⟨C07_floor_partial (sync w) _ op c hs hset, fun hinv => C07_floor_denom_partial (sync w) _ op c hinv hs hset⟩
 
 /-- what `SetWhitelist k` compares for a tiered whitelist that has not started: its FIRST stage -/
 theorem C07_tiered_attach_compares_first_stage (w : WorldT) (k : Nat) (s0 : Stage) (rest : List Stage) (snd : Addr) (pd : Bool)
@@ -259,7 +259,10 @@ theorem C07_view_faithful (st : List Stage) (now : Nat) :
 
 /-- NO environment step — a whitelist contract changing, a fee-rate change, the factory's migrate, an `UpdateEndTime`,
 any other message of the minter — changes the public price, the discount, `LAST_DISCOUNT_TIME`, the start time or the
-attached whitelist; the factory minimum is only ever replaced by a native-denom coin -/
+attached whitelist; the factory minimum is only ever replaced by a native-denom coin.
+For `OpT.other` ("any other message of the minter") this holds BY DEFINITION: `stepT w .other = .ok w` is how the model defines
+it, so the theorem restates the model's definition there — that the real minters' remaining messages leave these fields alone is
+validated by the harness' run-time message-surface sweep only. -/
 theorem C07_env_frame (w w' : WorldT) (op : OpT) (hok : stepT w op = .ok w')
     (henv : (∀ bop, op ≠ .base bop) ∧ (∀ v, op ≠ .migrate v)) : EnvStep w w' := by
   rcases stepT_ok hok with ⟨bop, he, _⟩ | ⟨v, he, _⟩ | h
